@@ -286,6 +286,18 @@ def run_placement_case(scheme, cid, cfg, db, acc, rng):
         b1 = {w: tuple((n, i) for (n, i, _) in v) for w, v in m1.items()}
         b2 = {w: tuple((n, i) for (n, i, _) in v) for w, v in m2.items()}
         same = b1 == b2
+        # false-alarm bound: every chunk chose uniformly among the buckets of its level that still had room; count
+        # conservatively (#buckets - 1) candidates per chunk and require the chance of a full repeat to be < 1e-9
+        import math
+        log_p = 0.0
+        for slots in b1.values():
+            for (name, _) in slots:
+                lvl = int(name[name.index("[") + 1:-1])
+                cand = max(1, len(edb1.A_dict[lvl]) - 1)
+                log_p -= math.log10(cand)
+        if log_p > -9:
+            acc.count("placement.too_few_bucket_choices")
+            return False
     else:
         same = m1 == m2
     if same:
@@ -366,6 +378,10 @@ def run_shard(spec, acc, ctx):
         while not ctx.out_of_time():
             cid, cfg = gen.pick_config(scheme, rng, i)
             i += spec["of"]
+            if scheme == "DP17.Pi" and cfg["param_L"] == 1 and cfg["param_actual_storage_level_ratio"] < 0.5:
+                # with one coarse level there are only two buckets to choose from: no placement randomness to observe
+                cfg["param_actual_storage_level_ratio"] = rng.choice([0.5, 1.0])
+                cid += "+ratio" + str(cfg["param_actual_storage_level_ratio"])
             db = placement_db(scheme, cfg, rng)
             if db is None:
                 acc.count("placement.config_skipped")
